@@ -22,7 +22,10 @@ pub async fn cost(peers: Vec<Multiaddr>) -> Result<()> {
     if total_cost.is_zero() {
         println!("Vault already exists, modifying an existing vault is free");
     } else {
-        println!("Cost to create a new vault: {total_cost} AttoTokens");
+        println!(
+            "Cost to create a new vault: {} AttoTokens",
+            total_cost.as_atto()
+        );
     }
     Ok(())
 }
@@ -48,7 +51,7 @@ pub async fn create(peers: Vec<Multiaddr>) -> Result<()> {
         println!("✅ Successfully created new vault containing local user data");
     }
 
-    println!("Total cost: {total_cost} AttoTokens");
+    println!("Total cost: {} AttoTokens", total_cost.as_atto());
     println!("Vault contains:");
     println!("{file_archives_len} public file archive(s)");
     println!("{private_file_archives_len} private file archive(s)");
